@@ -349,6 +349,12 @@ func (s *Stream) runHandler(ent svcEntry) {
 
 func (s *Stream) cliFinishedLocked() bool { return s.recvTerm != nil }
 
+func (s *Stream) handlerDone() bool {
+	s.net.mu.Lock()
+	defer s.net.mu.Unlock()
+	return s.HandlerDone
+}
+
 // finishServerLocked: the server half is done (handler returned or a send failed fatally).
 func (s *Stream) finishServerLocked(st *status.Status) {
 	if s.srvDone {
